@@ -242,7 +242,11 @@ fn main() {
                 let header = header_for(e, &format!("r{}-{i}-{}", args.seed, e.id), &mut rng, default_init);
                 let max_ops = if thorough { 8 + rng.below(28) as usize } else { 10 + rng.below(30) as usize };
                 runner.cx.rec.bump("source:random");
-                runner.run(&header, &mut RandGen::new(rng.fork(), max_ops));
+                let mut g = RandGen::new(rng.fork(), max_ops);
+                if i % 3 == 2 {
+                    g.scope_pct = 25;
+                }
+                runner.run(&header, &mut g);
             }
         } else {
             // ---- C06: error paths by construction + refusal of every growing realloc of every history
@@ -263,7 +267,11 @@ fn main() {
                 let header = header_for(e, &format!("f{}-{i}-{}", args.seed, e.id), &mut rng, default_init);
                 let max_ops = 8 + rng.below(if thorough { 22 } else { 18 }) as usize;
                 runner.cx.rec.bump("source:random");
-                let base = runner.run(&header, &mut RandGen::new(rng.fork(), max_ops));
+                let mut g = RandGen::new(rng.fork(), max_ops);
+                if i % 3 == 2 {
+                    g.scope_pct = 25;
+                }
+                let base = runner.run(&header, &mut g);
                 reruns += runner.refusal_reruns(&base, if thorough { 40 } else { 24 });
             }
             extra.insert("refusal_reruns".into(), serde_json::json!(reruns));
